@@ -7,7 +7,7 @@ RULE = ('(1) H-ENUM: every duration vector for n <= N stories over the timing ki
         '(non-integer), TextTime+MediaTime, StoryDuration+TextTime (precedence), StoryDuration listed after TextTime and MediaTime (precedence), a duration of 0 (as StoryDuration and as '
         'TextTime+MediaTime), metadata without timing, no metadata} x '
         'explicit StoryStarted/StoryEnded on every subset x roEdStart {present, empty, absent}; story durations are distinct '
-        'powers of two so every prefix sum identifies its summands; (2) H-STORY closure (reorder / insert / replace / delete '
+        'powers of two so every prefix sum identifies its summands; (1b) the same with one story carrying a blank storyID; (2) H-STORY closure (reorder / insert / replace / delete '
         '/ swap / re-send) over stories with per-ID timing kinds and explicit times. Monitor (every state): independent '
         'recomputation from the XML text of duration precedence and, when every story has a duration, RO duration = sum, '
         'offset_i = sum_{j<i} d_j, start = explicit or roEdStart + offset, end = explicit or start + duration, RO end = '
@@ -49,6 +49,14 @@ def run(tier):
             {'label': 'reordering-closure-no-roEdStart', 'harness': HStory(pool=4, cap=4, max_list=2, timing=TIMING, explicit=EXPL, layouts=('after',),
                                                                           no_expand=(), edstart=False), 'monitors': mon},
         ]
+    # one story with a blank storyID (the library supports blank IDs): the relations hold for it and around it
+    from ..gen import BLANK
+    parts.append({'label': 'duration-vectors-with-a-blank-storyID',
+                  'harness': HEnum(timing_states(max_n=3, kinds=('dur', 'both', 'zero', 'none'), explicit=('', 'se'), edstarts=(True, False),
+                                                 ids=('A', BLANK, 'C')), 'timing-blank'), 'monitors': mon})
+    parts.append({'label': 'duration-vectors-blank-storyID-first',
+                  'harness': HEnum(timing_states(max_n=2, kinds=('dur', 'both', 'zero', 'none'), explicit=('', 'se'), edstarts=(True, False),
+                                                 ids=(BLANK, 'A')), 'timing-blank-first'), 'monitors': mon})
     return runner.graph_check(
         'C16', tier, parts, rule=RULE, vacuity=vacuity,
         assumptions=['durations numeric, times full ISO-8601 timestamps (a time without a date would make dateutil consult the wall clock)',
